@@ -76,6 +76,13 @@ def one_design(ck, d, n_ext, ncycles):
     entries = rs.schedule_entries()
     if any(e[0] != 'b' for e in entries):
       return None, f'{flow}: unexpected schedule entry {entries}'
+    stray = sorted(set(e[1] for e in entries) & set(d.ff_ids()))
+    if stray:
+      ck.violation('ff-block-in-comb-schedule', {'flow': flow},
+                   {'source': d.source(), 'flow': flow, 'signals': [s_.path for s_ in d.sigs]},
+                   {'ff_blocks_in_comb_schedule': stray,
+                    'oracle': 'the combinational schedule holds update blocks only; an update_ff block there is evaluated again after the edge'})
+      return None, f'{flow}: update_ff block in the combinational schedule'
     tr, fails = rtlgen.run_real(rs, cycles)
     runs.append((flow, [e[1] for e in entries], rs.ff_entries(), tr, fails))
   comb_ids, ff_ids = d.comb_ids(), d.ff_ids()
